@@ -230,6 +230,15 @@ def structure_cases(rng):
                        "n_points": 7 if n_dim > 2 else 12, "model": m.describe(), "gen": "all-structures"}
 
 
+def npoints_sweep_cases(rng, hi):
+    """every n_points from 3 to `hi` once on one 2-D model (the number of contour points must be exactly
+    n_points for every value, not only for round ones)"""
+    m = doubles.random_model(rng, n_dim=2, cond=[None, 0])
+    for n_points in range(3, hi + 1):
+        yield {"mode": "doubles", "kind": "iform" if n_points % 2 else "isorm", "alpha": 0.01, "n_points": n_points,
+               "model": m.describe(), "gen": "n_points-sweep"}
+
+
 def desc_of(case):
     if case["mode"] == "doubles":
         d = doubles.model_from_desc(case["model"])
@@ -261,7 +270,7 @@ def process(ck, case):
     if bad == "nonfinite":
         ck.count("skipped_nonfinite_coordinates")
         return
-    ck.case(case, nontrivial=desc.n_dependent() >= 1)
+    ck.case(case, nontrivial=desc.n_dependent() >= 1, sample=case.get("gen") != "n_points-sweep")
     ck.count(f"mode={case['mode']}")
     ck.count(f"kind={case['kind']}")
     ck.count(f"n_dim={desc.n_dim}")
@@ -290,6 +299,8 @@ def main(ck):
     ck.partial = {"distinct NSphere directions for n_dim >= 3": "computed on each explored size, not proven",
                   "inverse laws F(Q(p)) = p of scipy leaves": "hypothesis of rosenblatt_invRosenblatt; tested on every point used"}
     for case in structure_cases(rng):
+        process(ck, case)
+    for case in npoints_sweep_cases(rng, 720 if thorough else 400):
         process(ck, case)
     for case in gen_cases(rng, 1500 if thorough else 160, 360 if thorough else 60):
         process(ck, case)
